@@ -203,6 +203,19 @@ def expected(s):
 ATTR_VALUES = [True, 5, 2.5, "sv", ("a", "b"), (1, 2, 3), (True, False), (), [1, 2], False, 0, ""]
 
 
+class _StrSub(str):
+    """A str subclass (markup-safe strings, StrEnum members are such)."""
+
+
+class _FloatSub(float):
+    """A float subclass (numpy.float64 is one)."""
+
+
+def _subclass_values():
+    import http
+    return [http.HTTPStatus.OK, _StrSub("md"), _FloatSub(1.5)]
+
+
 def build_snapshot(nf, nv, nw, na, opt, num, big, txt, which, src):
     """Assemble an EventSnapshot from the real model classes; every string is a distinct token except field `which`."""
     from deep.api.tracepoint.eventsnapshot import EventSnapshot, StackFrame, Variable, VariableId, WatchResult
@@ -240,7 +253,10 @@ def build_snapshot(nf, nv, nw, na, opt, num, big, txt, which, src):
         else:
             s.add_watch_result(WatchResult(sources[(src + i) % 4], tok("expr"), None, tok("error")))
     for i in range(na):
-        s.attributes[tok("ak")] = ATTR_VALUES[(na + i + src) % len(ATTR_VALUES)]
+        value = ATTR_VALUES[(na + i + src) % len(ATTR_VALUES)]
+        if optional and i == 0:
+            value = _subclass_values()[num % 3]         # instances of SUBCLASSES of int / str / float are values of that kind
+        s.attributes[tok("ak")] = value
     s._duration_nanos = BIG[(big + 1) % 4]
     if optional:
         s.log_msg = tok("log")
@@ -467,7 +483,7 @@ CONDITIONS = [
          twins=["reach", "mutant:drop_app_frame@nf == 1 and nv == 0 and opt == 0 and which == -1 and txt == 0 and big == num and src in (0, 3)",
                 "mutant:swap_type_value@nf == 0 and nv == 2 and opt == 0 and which == -1 and txt == 0 and big == num and src in (0, 3)",
                 "mutant:tuple_dropped@nf == 0 and nv == 0 and opt == 0 and which == -1 and txt == 0 and big == num and src in (0, 3)"],
-         bounds="0-2 frames, 0-3 table entries with 0-2 children, 0-2 watches (good / error, 4 sources), 0-3 attributes over 12 value shapes (scalars, tuples, list, empty), "
+         bounds="0-2 frames, 0-3 table entries with 0-2 children, 0-2 watches (good / error, 4 sources), 0-3 attributes over 12 value shapes (scalars, tuples, list, empty) plus instances of int / str / float subclasses, "
                 "optional fields present / absent, numeric fields from boundary pools (incl. 2^31, 2^63-1, tracepoint line -1), every string a distinct token; one string field at a time "
                 "replaced by '', non-ASCII, control characters or a long text, and - in the fields the collector fills from the application - text with lone high / low surrogates "
                 "(expected: every other character kept, each unencodable one replaced by one encodable character); real protobuf classes + serialise/parse round trip"),
